@@ -18,13 +18,11 @@ try:
         if s.count(old) != 1:
             print("old text occurs %d times" % s.count(old)); sys.exit(2)
         open(p, "w").write(s.replace(old, new))
-    ev = os.path.join(VERIF, "evidence")
-    bak = tempfile.mkdtemp(prefix="evbak-")
-    shutil.copytree(ev, bak + "/e")
-    env = dict(os.environ, VERIF_REPO=work)
+    evd = tempfile.mkdtemp(prefix="mut-ev-")
+    env = dict(os.environ, VERIF_REPO=work, VERIF_EVIDENCE_DIR=evd)
     for pr in props:
         r = subprocess.run([os.path.join(VERIF, "check"), pr], env=env, cwd=VERIF)
         print("== %s exit %d" % (pr, r.returncode))
-    shutil.rmtree(ev); shutil.copytree(bak + "/e", ev); shutil.rmtree(bak)
+    shutil.rmtree(evd, ignore_errors=True)
 finally:
     shutil.rmtree(work, ignore_errors=True)
